@@ -84,6 +84,9 @@ pub struct S1Scenario {
     pub chooser: ChooserKind,
     /// Number of times the harness thread calls `discoveries()`/`is_done()` while workers run.
     pub polls: u8,
+    /// Drop the checker handle instead of joining it (the workers must still stop).
+    #[serde(default)]
+    pub drop_without_join: bool,
     pub sched: SchedSpec,
 }
 
@@ -99,6 +102,7 @@ pub struct Visit {
 #[derive(Clone, Debug, Serialize, PartialEq)]
 pub enum JoinOutcome {
     Returned,
+    Dropped,
     Panicked(String),
     Aborted,
 }
@@ -234,6 +238,10 @@ fn drive<C: Checker<GModel>>(
                 std::panic::resume_unwind(e)
             }
         });
+    }
+    if sc.drop_without_join {
+        drop(checker);
+        return (JoinOutcome::Dropped, None, None);
     }
     // join consumes the checker; on a panic inside join the checker is lost
     let joined = catch_unwind(AssertUnwindSafe(move || checker.join()));
